@@ -3,6 +3,7 @@ package main
 import (
 	"bytes"
 	"reflect"
+	"unsafe"
 )
 
 func init() { propRunners["C11"] = runC11 }
@@ -128,6 +129,17 @@ func execAlias(s *Sexp) string {
 		if !bytes.Equal(data, dataCopy) {
 			lastAliasOracle = append(lastAliasOracle, "Unmarshal modified its input")
 		}
+		// no string and no slice of the decoded value — its spare capacity included — lies in the input buffer
+		if len(data) > 0 {
+			lo := uintptr(unsafe.Pointer(unsafe.SliceData(data)))
+			hi := lo + uintptr(cap(data))
+			for _, r := range memRanges(dst.Elem()) {
+				if r[0] < hi && lo < r[1] {
+					lastAliasOracle = append(lastAliasOracle, "a decoded string or slice (capacity included) points into the input buffer")
+					break
+				}
+			}
+		}
 		s1 := FromReflect(dst.Elem(), c.td).String()
 		for i := range data {
 			data[i] = 0xAA
@@ -158,4 +170,53 @@ func runC11(r *Runner, g *Gen, tier string) string {
 		r.Do(codecOp("alias", cfg, t, "", v.Sexp()), nontrivialVal(t, v), "alias")
 	}
 	return "generated types and values (strings, byte slices, interned strings, string- and struct-keyed maps at every depth); op = Marshal into a buffer with a prefix and 4 KiB spare capacity, overwrite every byte slice of the value, then Unmarshal a copy of the encoding, overwrite the input buffer with 0xAA and read the decoded value again; compared with the model's provenance-labelled decoder observed under the overwritten buffer; oracle: prefix intact, value intact, output and decoded value unchanged by the overwrites, input unchanged"
+}
+
+// memRanges: the address ranges [lo, hi) of every string and every slice backing
+// array (up to its capacity) reachable from the value.
+func memRanges(rv reflect.Value) [][2]uintptr {
+	var out [][2]uintptr
+	var walk func(rv reflect.Value)
+	walk = func(rv reflect.Value) {
+		switch rv.Kind() {
+		case reflect.String:
+			if rv.Len() > 0 {
+				s := rv.String()
+				p := uintptr(unsafe.Pointer(unsafe.StringData(s)))
+				out = append(out, [2]uintptr{p, p + uintptr(len(s))})
+			}
+		case reflect.Ptr:
+			if !rv.IsNil() {
+				walk(rv.Elem())
+			}
+		case reflect.Slice:
+			if rv.IsNil() {
+				return
+			}
+			if rv.Cap() > 0 {
+				p := rv.Pointer()
+				out = append(out, [2]uintptr{p, p + uintptr(rv.Cap())*rv.Type().Elem().Size()})
+			}
+			for i := 0; i < rv.Len(); i++ {
+				walk(rv.Index(i))
+			}
+		case reflect.Struct:
+			if rv.Type() == timeType {
+				return
+			}
+			for i := 0; i < rv.NumField(); i++ {
+				if rv.Type().Field(i).IsExported() {
+					walk(rv.Field(i))
+				}
+			}
+		case reflect.Map:
+			it := rv.MapRange()
+			for it.Next() {
+				walk(it.Key())
+				walk(it.Value())
+			}
+		}
+	}
+	walk(rv)
+	return out
 }
